@@ -510,7 +510,7 @@ func (c *Ctx) checkInvariant(st *State, fr *Frame, b *ssa.BasicBlock, kind strin
 		env := c.envForFrame(st, fr)
 		env.loopHead = b
 		c.bindLoopVars(env, fr, b)
-		t, err := c.evalBool(env, cl.Expr)
+		t, err := c.evalGoal(env, cl.Expr)
 		if err != nil {
 			c.Errorf("CONTRACT-ERROR %s: loop %d invariant: %v", cl.Line, ord, err)
 			continue
@@ -644,7 +644,9 @@ func (c *Ctx) VerifyFunction(key string) (*FuncReport, error) {
 	}
 	c.cur = run
 	before := len(c.Obls)
-	st := NewState()
+	st := c.initialState(fn)
+	c.cur = run
+	before = len(c.Obls)
 	st.trace = st.trace.push("entry " + c.ShortName(key))
 	// parameters
 	args := make([]Value, len(fn.Params))
@@ -702,13 +704,17 @@ func (c *Ctx) VerifyFunction(key string) (*FuncReport, error) {
 			st.Assume(t)
 		}
 		if ct.Decreases != nil {
-			m, err := c.evalSpec(env, ct.Decreases.Expr)
-			if err != nil {
-				return nil, fmt.Errorf("CONTRACT-ERROR %s: %v", ct.Decreases.Line, err)
+			for _, d := range ct.DecreasesList {
+				m, err := c.evalSpec(env, d.Expr)
+				if err != nil {
+					return nil, fmt.Errorf("CONTRACT-ERROR %s: %v", d.Line, err)
+				}
+				run.entryMeasures = append(run.entryMeasures, m.t)
 			}
-			run.entryMeasure = m.t
+			run.entryMeasure = run.entryMeasures[0]
 		}
 		c.captureOld(env, ct.Ensures, run.oldCache)
+		run.entryAlloc = c.Arr(st, famAlloc, ArraySort(SInt, SBool))
 		// vacuity guard: the precondition must be satisfiable
 		c.emit(st, nil, nil, "cover", "precondition", True, "precondition satisfiable", true)
 	}
@@ -755,7 +761,7 @@ func (c *Ctx) checkPost(o outcome, fn *ssa.Function, ct *Contract, fr0 *Frame) {
 	env.fn = fn
 	env.post = true
 	for i, e := range ct.Ensures {
-		t, err := c.evalBool(env, e.Expr)
+		t, err := c.evalGoal(env, e.Expr)
 		if err != nil {
 			c.Errorf("CONTRACT-ERROR %s: %v", e.Line, err)
 			continue
@@ -806,4 +812,69 @@ func (c *Ctx) bindLoopVars(env *specEnv, fr *Frame, head *ssa.BasicBlock) {
 			env.vars[phi.Comment] = specVal{t: t, typ: phi.Type()}
 		}
 	}
+}
+
+// initialState returns the state after the package initialisers have run: package-level
+// variables hold the values given by their declarations. (Writes to package-level
+// variables outside of init are flagged by a separate obligation, so these values are
+// stable.) If the initialiser cannot be executed symbolically on a single path, nothing
+// is known about the globals.
+func (c *Ctx) initialState(fn *ssa.Function) *State {
+	pkg := fn.Pkg
+	if pkg == nil && fn.Parent() != nil {
+		pkg = fn.Parent().Pkg
+	}
+	if pkg == nil {
+		if tp := c.typesPkgOf(fn); tp != nil {
+			pkg = c.Prog.Package(tp)
+		}
+	}
+	if pkg == nil {
+		return NewState()
+	}
+	if st, ok := c.initStates[pkg]; ok {
+		if st == nil {
+			return NewState()
+		}
+		return st.Clone()
+	}
+	c.initStates[pkg] = nil
+	initFn := pkg.Func("init")
+	if initFn == nil || len(initFn.Blocks) == 0 {
+		return NewState()
+	}
+	saved := c.cur
+	savedObls := len(c.Obls)
+	savedErrs := len(c.Errors)
+	savedInline, savedBudget := c.MaxInline, c.PathBudget
+	c.MaxInline = 12
+	c.PathBudget = 200
+	run := &funcRun{fn: initFn, key: c.FuncKey(initFn), params: map[string]Value{}, lets: map[string]specVal{}, externUsed: map[string]bool{}, modularUsed: map[string]bool{}, oldCache: map[*SNode]specVal{}, isInit: true}
+	c.cur = run
+	st := NewState()
+	st.trace = st.trace.push("package initialisation")
+	var outs []outcome
+	func() {
+		defer func() {
+			if r := recover(); r != nil {
+				run.aborted = fmt.Sprint(r)
+			}
+		}()
+		outs = c.execFunc(st, initFn, nil, nil, execOpts{top: true})
+	}()
+	c.cur = saved
+	c.Obls = c.Obls[:savedObls]
+	c.Errors = c.Errors[:savedErrs]
+	c.MaxInline, c.PathBudget = savedInline, savedBudget
+	if run.aborted != "" || len(outs) != 1 {
+		c.Notef("package %s: initialiser not executed symbolically (%s, %d outcomes): globals unknown", pkg.Pkg.Path(), run.aborted, len(outs))
+		return NewState()
+	}
+	res := outs[0].st
+	// objects allocated during init are not "fresh" for the functions verified later
+	res.freshObjs = map[string]bool{}
+	res.trace = nil
+	res.heldLocks = nil
+	c.initStates[pkg] = res
+	return res.Clone()
 }
